@@ -290,4 +290,6 @@ pub fn run(run: &Run) {
             if i < 4 { run.sample(witness(c, &bs)); }
         });
     });
+    // thorough: the same quick workload once more under the AddressSanitizer build (memory errors in the library or its dependencies)
+    if !run.quick() { crate::lanes::asan_rerun(run); }
 }
